@@ -272,7 +272,9 @@ func buildObjects() {
 		o.SCTs = append(o.SCTs, b.Bytes())
 		o.DigSigned = append(o.DigSigned, ds)
 	}
-	u24 := func(b []byte) []byte { return append([]byte{byte(len(b) >> 16), byte(len(b) >> 8), byte(len(b))}, b...) }
+	u24 := func(b []byte) []byte {
+		return append([]byte{byte(len(b) >> 16), byte(len(b) >> 8), byte(len(b))}, b...)
+	}
 	{
 		var b bytes.Buffer
 		b.Write([]byte{0, 0})
